@@ -65,15 +65,18 @@ Lemma create_alter_pdu_is_model pv all ids fl tk :
   = bind_pdu_of_sent pv all (SAlter fl tk ids).
 Proof. reflexivity. Qed.
 
-(* AuthenticationProvider.step(self, in_token): the level-6 trailer around the context's next token *)
-Lemma flow_auth_step fuel ap tok sig_len :
+(* AuthenticationProvider.step(self, in_token): the level-6 trailer around the context's next token.  Conversation.step_trailer reads only
+   the provider id of its `provider` argument (pv_type; the signature size pv_sig_len is not part of a step() trailer), so the statement
+   is for every model provider whose id is self.provider *)
+Lemma flow_auth_step fuel ap tok pv :
+  pv_type pv = ap_provider ap ->
   run W fuel k_flow_auth_step [VO (OAuthP ap); optbv tok]
   = match ap_legs ap with
     | [] => Raise KeyError
-    | l :: _ => Ok (VO (OSt (step_trailer {| pv_type := ap_provider ap; pv_sig_len := sig_len |} (leg_token l))))
+    | l :: _ => Ok (VO (OSt (step_trailer pv (leg_token l))))
     end.
 Proof.
-  unfold step_trailer, k_onl_step_level, k_onl_step_pad, k_onl_step_ctx. cbn [pv_type].
+  intro Hpv. unfold step_trailer, k_onl_step_level, k_onl_step_pad, k_onl_step_ctx. rewrite Hpv.
   destruct (ap_legs ap) as [|l ls] eqn:El; cbn; rewrite El; cbn; [reflexivity|].
   destruct (leg_token l) as [|x r]; cbn; rewrite ?len_cons_nz; reflexivity.
 Qed.
